@@ -390,6 +390,7 @@ def tight_part(ctx, externs, asan_dir, reclib, workroot, called=()):
                                  per_probe_timeout=60.0, batch_timeout=ctx.scale(600.0, 1500.0),
                                  extra_asan="symbolize=0")
     stats = {}
+    silent_samples = []
     for (ci, kind, arg, code), p, r in zip(meta, probes, results):
         c = cases[ci]
         st = stats.setdefault(c["callee"], {"exact": 0, "shrink": 0, "fault": 0})
@@ -402,24 +403,35 @@ def tight_part(ctx, externs, asan_dir, reclib, workroot, called=()):
             raise RuntimeError("C05: a tightness probe was not run (batch time limit)")
         if kind == "exact":
             if r["reports"] or r["ret"] != "ok":
+                # a break of the model <-> code correspondence (the footprint model no longer describes the code),
+                # NOT a violation of the property: the property is about the buffers the Python entry points pass,
+                # which may be larger than the footprint the model predicts for this very call (failing inputs come
+                # from the API / history streams only)
                 ctx.disagree(f"tightness: {c['callee']} run with exactly the extents the model predicts is not clean "
                              "(the code touches more than the model)", case)
-                rep = r["reports"][0] if r["reports"] else None
-                ctx.finding(f"kernel:{c['callee']}/{branch_of(rep, r.get('signal'))}/exact-extent:{c['tag']}",
-                            f"{c['callee']} touches memory outside the extents its footprint model proves sufficient",
-                            case)
             elif c["callee"] in T.RETCODE and (int(r["val"]) == 0) != (code == 0):
                 ctx.disagree(f"tightness: return code class of {c['callee']} differs from the model's", case)
         elif kind == "shrink":
+            # the model touching MORE than the code is sound (the theorems bound the model's footprint, hence the
+            # code's): an algorithm that reads less, or an error return that comes before a read the model makes, is
+            # not something the property fixes. Counted per kernel; only a footprint that is mostly unrelated to the
+            # code (see below) is a correspondence break.
             hit = [x for x in r["reports"] if x.get("buf") == arg]
-            if not hit and r["ret"] not in ("died", "timeout"):
-                ctx.disagree(f"tightness: {c['callee']} with buffer {arg} one element shorter than the model's "
-                             "footprint raised no report at that buffer (the model touches more than the code)", case)
+            st["shrink_silent"] = st.get("shrink_silent", 0) + int(not hit and r["ret"] not in ("died", "timeout"))
+            if not hit and r["ret"] not in ("died", "timeout") and len(silent_samples) < 5:
+                silent_samples.append(case)
         else:
-            if not r["reports"] and r["ret"] == "ok":
-                ctx.disagree(f"tightness: the model of {c['callee']} ends with {arg} but the sanitizers report nothing",
-                             case)
-    ctx.extra["tightness"] = {"cases": len(cases), "probes": len(probes), "workers": info["workers"],
+            # the model faults on a kernel-level input (by the wrapper theorems: one no wrapper can pass). A kernel that
+            # refuses it itself is safer than the model, which the property does not forbid: counted, not compared
+            st["model_fault_code_silent"] = st.get("model_fault_code_silent", 0) + int(not r["reports"] and r["ret"] == "ok")
+    for k, st in stats.items():
+        if st["shrink"] >= 10 and st.get("shrink_silent", 0) > 0.75 * st["shrink"]:
+            ctx.disagree(f"tightness: the footprint model of {k} is mostly unrelated to the code: "
+                         f"{st['shrink_silent']} of {st['shrink']} one-element-shorter probes raised no report",
+                         {"kernel": k, "samples": [x for x in silent_samples if x["kernel"] == k][:2]})
+    ctx.extra["tightness"] = {"cases": len(cases), "probes": len(probes),
+                              "model_touches_more_than_code": {k: st["shrink_silent"] for k, st in stats.items()
+                                                               if st.get("shrink_silent")}, "workers": info["workers"],
                               "worker_deaths": info["deaths"], "wall_s": round(time.time() - t0, 1),
                               "per_kernel": stats, "noshrink": {k: sorted(v) for k, v in T.NOSHRINK.items()}}
 
